@@ -101,6 +101,13 @@ def run(ctx):
         u = R.random()
         langs = [lang] if u < 0.85 else (None if u < 0.93 else [lang, "en"])
         jobs.append((text, langs, R.random() < 0.7, R.random() < 0.3))
+    # a hit that carries its own zone (it becomes the reference for what follows when no RELATIVE_BASE is given) before a date whose year is
+    # written with two digits, and the other way round
+    for t_ in ("Deployed 2020-03-05T10:00:00Z, invoice dated 12/05/21.", "Treffen am 10. März 2020 10:00 UTC. Rechnung vom 12.05.21", "会議 2020年3月5日 10:00 UTC 、 12/05/21",
+               "invoice dated 12/05/21, deployed 2020-03-05 10:00 +0200.", "5 March 2020 10:00 EST and then 03.04.19 and 1 May 99"):
+        for lg_ in (None, ["en"], ["de"], ["ja"]):
+            for b_ in (False, True):
+                jobs.append((t_, lg_, b_, True))
     res = pmap(probe, jobs, chunksize=16)
     # the same text under several language selections in one process (autodetection, its own language, other languages, pairs): what one
     # selection found out about the text must not leak into the next
